@@ -22,7 +22,10 @@ pub fn scalars() -> Vec<RVal> {
     ];
     for tag in [0x30u8, 0x41, 0x42, 0x44, 0x45, 0x46, 0x47, 0x48, 0x49] {
         v.push(t(tag, "")); v.push(t(tag, "a")); v.push(t(tag, "héllo wörld ✓"));
+        // leading / trailing white space, NUL and control characters are content
+        v.push(t(tag, " padded \t")); v.push(t(tag, "nul\u{0}")); v.push(t(tag, "\u{0}")); v.push(t(tag, "line\n")); v.push(t(tag, " "));
     }
+    v.push(RVal::Lang(0x35, "en ".into(), " text \u{0}".into()));
     v.push(t(0x41, &"x".repeat(255))); v.push(t(0x41, &"y".repeat(256)));
     v
 }
@@ -35,6 +38,11 @@ pub fn structured() -> Vec<RVal> {
         RVal::Set(vec![kw("a"), kw("b"), kw("c"), kw("d")]),
         RVal::Set(vec![RVal::Range(1, 2), RVal::Int(0x21, 5)]),
         RVal::Set(vec![RVal::NoValue, RVal::Other(0x12, vec![])]),
+        // neighbours of the same kind of value but different tags; equal neighbours; more than 8 elements
+        RVal::Set(vec![RVal::Other(0x10, vec![]), RVal::Other(0x15, vec![1, 2]), RVal::Other(0x12, vec![]), RVal::Other(0x15, vec![1, 2])]),
+        RVal::Set(vec![RVal::Int(0x21, 4), RVal::Int(0x23, 4), RVal::Int(0x21, 4), RVal::Int(0x21, 4)]),
+        RVal::Set(vec![kw("k"), t(0x42, "k"), t(0x41, "k"), t(0x45, "k"), t(0x44, "k")]),
+        RVal::Set((0..12).map(|i| if i % 5 == 4 { RVal::Bool(true) } else { RVal::Int(0x21, i) }).collect()),
         coll(&[("a", RVal::Int(0x21, 1))]),
         coll(&[]),
         coll(&[("a", RVal::Set(vec![RVal::Int(0x21, 1), RVal::Int(0x21, 2)])), ("b", RVal::Int(0x21, 3))]),
@@ -68,6 +76,10 @@ pub fn messages(thorough: bool) -> Vec<RMsg> {
     out.push(base(vec![(1, op.clone()), (2, vec![("copies".into(), RVal::Int(0x21, 2))]), (4, vec![]), (4, vec![("p".into(), kw("q"))]),
                        (5, vec![("u".into(), RVal::Other(0x10, vec![]))]), (2, vec![("copies".into(), RVal::Int(0x21, 3))])]));
     out.push(base(vec![(1, op.clone()), (1, vec![("second-op".into(), kw("x"))])]));
+    // a group that ends with a multi-valued attribute / a collection, followed by groups with single-valued attributes
+    out.push(base(vec![(1, op.clone()), (2, vec![("sides".into(), kw("one")), ("finishings".into(), RVal::Set(vec![RVal::Int(0x23, 3), RVal::Int(0x23, 4), RVal::Int(0x23, 5)]))]),
+                       (2, vec![("copies".into(), RVal::Int(0x21, 7))]),
+                       (4, vec![("c".into(), coll(&[("m", RVal::Set(vec![kw("a"), kw("b")]))]))]), (4, vec![("after-coll".into(), RVal::Bool(true))])]));
     // every leading operation attribute present at once, and the same names used in other groups
     let mut full_op = op.clone();
     full_op.extend([("printer-uri".to_string(), t(0x45, "ipp://h/p")), ("job-uri".to_string(), t(0x45, "ipp://h/jobs/1")),
